@@ -59,6 +59,8 @@ struct St {
     published: u32,
     /// (file id, version) of every publication, in the order they were sent
     publications: Vec<(u32, i32)>,
+    /// number of diagnostics of the latest publication per file id
+    last_counts: BTreeMap<u32, usize>,
     /// events passed per thread (program counters for state matching)
     pcs: BTreeMap<Key, u32>,
     model_violation: Option<String>,
@@ -171,6 +173,9 @@ impl Shared {
                     }
                     Ev::Published => st.published += 1,
                     Ev::PublishedFor(file, version) => st.publications.push((file, version)),
+                    Ev::PublishedCount(file, n) => {
+                        st.last_counts.insert(file, n);
+                    }
                     _ => {}
                 }
                 self.cv.notify_all();
@@ -265,8 +270,9 @@ fn message_name(m: usize) -> &'static str {
     }
 }
 
-const ROOT_TEXT: &str = "include \"b.td\"\nclass B : A;\ndef d : B;\n";
-const ROOT_TEXT2: &str = "// edited\ninclude \"b.td\"\nclass B : A;\ndef e : B;\n";
+// (each text of the root carries a diagnostic: what the client shows for a document that has left the workspace matters)
+const ROOT_TEXT: &str = "include \"b.td\"\nclass B : A;\ndef d : B;\ndef bad : Missing;\n";
+const ROOT_TEXT2: &str = "// edited\ninclude \"b.td\"\nclass B : A;\ndef e : B;\ndef bad1 : Missing; def bad2 : Missing;\n";
 const INCLUDED_TEXT: &str = "class A;\n";
 
 #[derive(Debug, Clone, Default)]
@@ -278,6 +284,8 @@ pub struct Outcome {
     pub steps: u64,
     /// (file id, version) of every publication, in the order they were sent
     pub publications: Vec<(u32, i32)>,
+    /// number of diagnostics of the latest publication per file id, when everything has ended
+    pub final_counts: BTreeMap<u32, usize>,
 }
 
 /// Executes one schedule (choice prefix, then first-enabled) of a scenario.
@@ -506,6 +514,7 @@ pub fn execute(scenario: &[usize], prefix: &[usize], dir: &PathBuf) -> Outcome {
     let _ = main.join();
     let published = shared.m.lock().unwrap().published;
     out.publications = shared.m.lock().unwrap().publications.clone();
+    out.final_counts = shared.m.lock().unwrap().last_counts.clone();
     match rx.try_recv() {
         Ok(Ok(responses)) => {
             if let Some(bad) = responses.iter().find(|r| !r.ends_with(": ok")) {
@@ -624,6 +633,9 @@ pub fn explore_publication_order(scenario: &[usize], dir: &PathBuf, ctx: &mut Ct
     let mut stack: Vec<Vec<usize>> = vec![vec![]];
     let mut expanded: BTreeSet<String> = BTreeSet::new();
     let mut stuck = 0;
+    // what the client holds once everything has ended is a function of the final texts, not of the schedule:
+    // every complete execution must end like the first one (whose sequential twin C11's sessions judge)
+    let mut baseline: Option<(Vec<usize>, BTreeMap<u32, usize>)> = None;
     while let Some(prefix) = stack.pop() {
         ctx.trace(|| case_json(scenario, &prefix));
         let out = execute(scenario, &prefix, dir);
@@ -635,6 +647,20 @@ pub fn explore_publication_order(scenario: &[usize], dir: &PathBuf, ctx: &mut Ct
             stuck += 1;
         } else if let Some(d) = version_regression(&out.publications) {
             ctx.fail(Failure::new("version-decreased-under-schedule", show_scenario(scenario), format!("schedule {schedule:?}: {d}"), case_json(scenario, &schedule)));
+        } else {
+            match &baseline {
+                None => baseline = Some((schedule.clone(), out.final_counts.clone())),
+                Some((first, counts)) => {
+                    if *counts != out.final_counts {
+                        ctx.fail(Failure::new(
+                            "final-publications-depend-on-schedule",
+                            show_scenario(scenario),
+                            format!("schedule {schedule:?} ends with (file id -> diagnostics of its latest publication) {:?}, schedule {first:?} with {counts:?}", out.final_counts),
+                            json!({ "scenario": scenario, "schedule": schedule, "baseline_schedule": first, "witness": format!("{} @ schedule {:?} vs {:?}", show_scenario(scenario), schedule, first) }),
+                        ));
+                    }
+                }
+            }
         }
         for i in (prefix.len()..out.choices.len()).rev() {
             let (n, c) = out.choices[i];
@@ -664,6 +690,21 @@ pub fn eval_publication_order(case: &Value) -> Vec<Failure> {
     let out = execute(&scenario, &schedule, &dir);
     let _ = std::fs::remove_dir_all(&dir);
     let sched: Vec<usize> = out.choices.iter().map(|(_, c)| *c).collect();
+    if let Some(first) = case["baseline_schedule"].as_array() {
+        let first: Vec<usize> = first.iter().filter_map(|x| x.as_u64()).map(|x| x as usize).collect();
+        let dir = session_dir("C11s", 98);
+        let base = execute(&scenario, &first, &dir);
+        let _ = std::fs::remove_dir_all(&dir);
+        if base.deadlock.is_none() && base.problem.is_none() && out.deadlock.is_none() && out.problem.is_none() && base.final_counts != out.final_counts {
+            return vec![Failure::new(
+                "final-publications-depend-on-schedule",
+                show_scenario(&scenario),
+                format!("schedule {sched:?} ends with (file id -> diagnostics of its latest publication) {:?}, schedule {first:?} with {:?}", out.final_counts, base.final_counts),
+                json!({ "scenario": scenario, "schedule": sched, "baseline_schedule": first, "witness": format!("{} @ schedule {:?} vs {:?}", show_scenario(&scenario), sched, first) }),
+            )];
+        }
+        return vec![];
+    }
     match version_regression(&out.publications) {
         Some(d) => vec![Failure::new("version-decreased-under-schedule", show_scenario(&scenario), format!("schedule {sched:?}: {d}"), case_json(&scenario, &sched))],
         None => vec![],
